@@ -47,7 +47,7 @@ def run(ctx):
     rng = ctx.rng
     pyd = dtw.distance
     N = 6 if ctx.quick else 7
-    reps = 2 if ctx.quick else 6
+    reps = 8 if ctx.quick else 20
     idx = 0
     for n in range(1, N + 1):
         for rep in range(reps):
